@@ -22,7 +22,7 @@ func init() {
 			"Non-trivial+distinct = hash of (width, values) with a non-empty list carrying at least one bit above w (w<64), or hash of (bitmap, from, to) batches whose bitmap has both 0s and 1s.",
 		Assumptions: []string{"Getw/Join widths restricted to {1,2,4,8,16,32,64} and Slice to 0<=from<=to<=64*len (the stated domain)",
 			"nothing asserted about capacity of returned slices"},
-		Flavours: releaseThenGo126,
+		Flavours: releaseAnd386,
 		Required: []string{"join/w=1", "join/w=2", "join/w=4", "join/w=8", "join/w=16", "join/w=32", "join/w=64", "join/empty", "join/long-list",
 			"slice/empty", "slice/aligned", "slice/unaligned", "slice/multiword", "slice/to-end", "slice/sub-word"},
 		Families: func(c *mon.Config) []mon.Family {
